@@ -7,6 +7,9 @@ TRUSTED_BASE = [
     "correspondence check = differential testing of the hand-written Lean model (interpreted at Float/Float32) against kira built from /repo: "
     "harness/src (Rust), check (Python), Lean compiler/runtime Float ops assumed IEEE-754 and libm-identical to Rust's",
     "third-party crates (atomic-arena, rtrb, triple_buffer, glam, symphonia) are modelled or exercised, not verified",
+    "generated layer: tools/gen_lean.py + tools/rs2lean.py (Rust-subset -> Lean translator: parser, printer, the KOps conventions of "
+    "notes/translator.md) regenerate Gen.lean/GenFn.lean from the source on every run; the translated bodies are what the twin runs, "
+    "and Proofs/GenAgree*.lean pin them to the last validated hand-written readings",
 ]
 
 HOOK_COMMITS = ["0629e56", "a0e4ab0", "39d963f"]
@@ -157,7 +160,7 @@ PROPS = {
             "(1/0 is 0 over the reals, +inf in IEEE arithmetic: the clock then saturates, C05_infinite_speed_saturates); termination "
             "needs no hypothesis any more (C05_update_never_hangs, C05_no_history_hangs: the tick count is computed, not looped)",
             "a speed tween whose start is infinite in the target's unit (0 ticks per second -> SecondsPerTick, SecondsPerTick(0) -> ticks "
-            "per second) is interpolated in the starting speed's unit since fix 9794379 (before: NaN clock time); over the reals 1/0 = 0, "
+            "per second) is interpolated in the starting speed's unit since fix 724c1bb (before: NaN clock time); over the reals 1/0 = 0, "
             "so C05_speed_interpolation idealises that point and C05_speed_interpolation_never_nan (every number type) covers it",
             "u64 tick counts modelled as unbounded naturals; resource capacities not exhausted; ids are creation indices",
             "atomics are SeqCst: interleavings of atomic steps (no weak-memory reorderings)",
